@@ -345,7 +345,12 @@ func scenarios(quick bool) []Scenario {
 	// --- optimizer: map-order ties (two old files reused equally) and plain cases
 	tieOld := wh.Build{wh.F("x", "A.=1"), wh.F("y", "B.=2")}
 	tieNew := wh.Build{wh.F("z", "A.B.=3")}
+	// a tie between the old file of the same name (higher index) and another old file (lower
+	// index): the two tie-break rules point in different directions
+	tie2Old := wh.Build{wh.F("a", "A.=1"), wh.F("b", "B.=2")}
+	tie2New := wh.Build{wh.F("b", "A.B.=3")}
 	out = append(out,
+		Scenario{Kind: "rediff", Old: tie2Old, New: tie2New, Comp: "none", Partitions: 0, Bound: b(0, 1)},
 		Scenario{Kind: "rediff", Old: tieOld, New: tieNew, Comp: "none", Partitions: 0, Bound: b(1, 2)},
 		Scenario{Kind: "rediff", Old: twoOld, New: two, Comp: "none", Partitions: 2, Bound: b(0, 1)},
 	)
